@@ -10,6 +10,7 @@ import DnaModel.Model.TableSpec
 import DnaModel.Model.Builtin
 import DnaModel.Model.Report
 import DnaModel.Model.Label
+import DnaModel.Model.Circular
 
 open Dna
 
@@ -364,6 +365,35 @@ def handleSolve (toks : List String) : Option String :=
     | _ => none
   | _ => none
 
+/-- views of a circular run: after the 14 common sections, three sections per view: constraints | central | restrictions -/
+def views? : List (List String) → Option (List (Circular.View Nat))
+  | [] => some []
+  | cons :: central :: restrs :: rest => do
+    let v : Circular.View Nat := { constraints := ← nats? cons, central := ← nats? central, restrs := ← restrictions? restrs }
+    pure (v :: (← views? rest))
+  | _ => none
+
+def handleCirc (toks : List String) : Option String :=
+  match toks with
+  | _ :: rest =>
+    match splitBar rest with
+    | _ :: sett :: _ :: _ :: [sq] :: _ :: _ :: attrs :: evals :: efaults :: allocs :: heurs :: tape :: focus :: vs => do
+      let sett ← parseSettings sett
+      let tables : TableSpec.Tables := {
+        attrs := Std.HashMap.ofList (← attrs.mapM parseAttr), evals := Std.HashMap.ofList (← evals.mapM parseEval),
+        evalFaults := ← efaults.mapM parseEvalFault, allocs := (← allocs.mapM parseAlloc).toArray,
+        heurs := (← heurs.mapM parseHeur).toArray }
+      let ops := TableSpec.ops tables
+      let tape ← nats? tape
+      let focus ← nats? focus
+      let views := (← views? vs).toArray
+      let st : St Nat Float := { shared := { focus := focus }, tape := tape }
+      let (r, s', st') := Circular.circResolve ops sett (fun k => views[k]?) (seqOf sq) st
+      let outcome := match r with | .ok () => "ok" | .error e => errStr e
+      pure s!"{outcome} ; {seqStr s'} ; {joinWith "," (st'.trace.reverse.map seqStr)} ; {tape.length - st'.tape.length}"
+    | _ => none
+  | _ => none
+
 /-! ### built-in specifications -/
 
 def patStr : Pattern → String
@@ -623,6 +653,7 @@ def handle (toks : List String) : String :=
       else if cmd.startsWith "pat." then handlePat toks
       else if cmd.startsWith "space." then handleSpace toks
       else if cmd.startsWith "choice." then handleChoice toks
+      else if cmd == "solve.circ_resolve" then handleCirc toks
       else if cmd.startsWith "solve." then handleSolve toks
       else if cmd.startsWith "report." then handleReport toks
       else if cmd.startsWith "label." then handleLabel toks
